@@ -12,7 +12,8 @@ def World.initX (k nh : Nat) : World :=
   { σS := [], σD := [], ρ := fun x y => x = y ∧ x < k, nS := k + nh, nD := k }
 
 theorem World.initX_good (k nh : Nat) : (World.initX k nh).Good := by
-  refine ⟨fun a b b' h h' => by rw [← h.1, ← h'.1], fun a a' b h h' => by rw [h.1, h'.1], ?_, ?_⟩
+  refine ⟨fun a b b' h h' => by rw [← h.1, ← h'.1], fun a a' b h h' => by rw [h.1, h'.1], ?_, ?_,
+    fun a b _ => ⟨fun p hp => by simp [World.initX] at hp, fun p hp => by simp [World.initX] at hp⟩⟩
   · intro v hv
     rcases hv with ⟨p, hp, _⟩ | ⟨b, r⟩
     · simp [World.initX] at hp
